@@ -25,6 +25,10 @@ MISSED_FIRST = {
     "c18-snappy-literal-copy16": "T2-decoder-guard/decode_blocks:copy (every copy bounded by zn / xn, whatever its length expression)",
     "c19-repair-log-table-first-sequence": "T5-repair-table-registration, T6-repair-counters/table-max-sequence",
     "c16-separator-equals-limit": "T2-separator-contract",
+    "c04-failed-group-leaves-tmp-batch": "T1-group-scratch-reset",
+    "c01-get-range-upper-bound-by-smallest": "T8-range-fold",
+    "c10-approximate-offset-unpins-table-early": "T10-pinning/table-used-while-pinned",
+    "c07-dbiter-skip-bytewise-equal": "T12-dbiter-composition (db_iter.c tables were added after this seed arrived)",
 }
 rows = []
 for s in sorted(os.listdir(os.path.join(HERE, "seeded"))):
